@@ -414,17 +414,45 @@ class CFG:
 
 # -- gen / write sets / kill -------------------------------------------------------------------------
 
+def _is_term(e: ast.expr) -> bool:
+    """Name / attribute / subscript chains with constant or term subscripts (no calls, no arithmetic)."""
+    if isinstance(e, ast.Name):
+        return True
+    if isinstance(e, ast.Attribute):
+        return _is_term(e.value)
+    if isinstance(e, ast.Subscript):
+        return _is_term(e.value) and (isinstance(e.slice, ast.Constant) or _is_term(e.slice))
+    return False
+
+
 def _gen(n: "Node") -> FrozenSet:
-    """Facts established by executing the node itself:  x = <numeric literal>  gives  x == literal."""
+    """Facts established by executing the node itself (A6 transfer of assignments):
+       x = <numeric literal>  ->  x == literal          x = <term>      ->  x == term
+       x = max(a, b, ..)      ->  a <= x, b <= x        x = min(a, ..)  ->  x <= a, ..      (numeric literals / terms only)"""
     a = n.ast
     if n.kind == "stmt" and isinstance(a, ast.Assign) and len(a.targets) == 1 and isinstance(a.targets[0], (ast.Name, ast.Attribute)):
+        t = norm.attr_chain(a.targets[0])
+        if t is None:
+            return frozenset()
         v = a.value
         if isinstance(v, ast.Constant) and isinstance(v.value, (int, float)) and not isinstance(v.value, bool):
-            t = norm.attr_chain(a.targets[0])
-            if t is not None:
-                return frozenset([norm.mk_cmp("==", t, repr(v.value))])
+            return frozenset([norm.mk_cmp("==", t, repr(v.value))])
+        if _is_term(v):
+            vt = norm.U(v)
+            if t not in _names_of_text(vt)[0] and vt != t:
+                return frozenset([norm.mk_cmp("==", t, vt)])
+        if isinstance(v, ast.Call) and isinstance(v.func, ast.Name) and v.func.id in ("max", "min") and v.args and not v.keywords:
+            out = set()
+            for x in v.args:
+                if isinstance(x, ast.Constant) and isinstance(x.value, (int, float)) and not isinstance(x.value, bool):
+                    xt = repr(x.value)
+                elif _is_term(x) and t not in _names_of_text(norm.U(x))[0]:
+                    xt = norm.U(x)
+                else:
+                    continue
+                out.add(("cmp", "<=", xt, t) if v.func.id == "max" else ("cmp", "<=", t, xt))
+            return frozenset(out)
     return frozenset()
-
 
 
 def _target_texts(t: ast.expr, out: Set[str]):
